@@ -273,6 +273,7 @@ impl OwnedTerm {
     pub fn as_integer(&self) -> Option<i64> {
         match self {
             OwnedTerm::Integer(i) => Some(*i),
+            OwnedTerm::BigInt(big) => big.to_i64(),
             _ => None,
         }
     }
